@@ -695,3 +695,32 @@ const _: () = {
     routing_with_8_fangs!(R1, R2, R3, R4, R5, R6, R7, R8, R9, R10, R11);
     routing_with_8_fangs!(R1, R2, R3, R4, R5, R6, R7, R8, R9, R10, R11, R12);
 };
+
+/// verification hook (H1): names for the routing item types and a run-time
+/// assembly of mixed item lists, doing exactly what the tuple impls above do
+#[cfg(ohkami_verif)]
+pub mod __verif__ {
+    pub use super::{HandlerSet, ByAnother, Dir, Routing};
+
+    pub enum Item {
+        Handlers(HandlerSet),
+        By(ByAnother),
+        Dir(Dir),
+    }
+
+    pub fn assemble(
+        fangs: Option<std::sync::Arc<dyn crate::fang::Fangs>>,
+        items: Vec<Item>,
+    ) -> crate::Ohkami {
+        let mut target = crate::Ohkami::new(());
+        target.fangs = fangs;
+        for item in items {
+            match item {
+                Item::Handlers(it) => <HandlerSet as super::RoutingItem>::apply(it, &mut target.router),
+                Item::By(it)       => <ByAnother  as super::RoutingItem>::apply(it, &mut target.router),
+                Item::Dir(it)      => <Dir        as super::RoutingItem>::apply(it, &mut target.router),
+            }
+        }
+        target
+    }
+}
